@@ -215,7 +215,12 @@ def who_writes(rep, mod, rule, fnames):
                  '%s:%d' % (f.file, f.line), fact={'direct_writes': direct})
 
 
-def run(rep, repo, tier):
+def run(rep, repo, tier, as_decoder=False):
+    """as_decoder: called from C04 (round trip): the same receiver obligations reported under R-DECODE / R-DECODE-LEGACY, without
+    touching explanation, assumptions and floors of the calling check"""
+    if as_decoder:
+        saved = (rep.explanation, list(rep.assumptions))
+    RR, RR1, RW = ('R-DECODE', 'R-DECODE-LEGACY', 'R-DECODE-WRITES') if as_decoder else ('R-RECV', 'R-RECV1', 'R-WHOWRITES')
     rep.explanation = (
         'Abstract interpretation of gstuff_autorecv::newchar/init/reset and of the legacy gstuff_autorecv_newchar_v1 '
         'under the sline invariant: every write to the receive buffer is in bounds and goes through sline_putchar, '
@@ -259,8 +264,8 @@ def run(rep, repo, tier):
             r = mod.fn(stack[0].split('@')[0])
             o['root'] = r.qualname if r is not None else stack[0].split('@')[0]
             o['leaf'] = o['function']
-    rep.add_absint('R-RECV', obs)
-    who_writes(rep, mod, 'R-WHOWRITES', ['newchar', 'reset', 'init'])
+    rep.add_absint(RR, obs)
+    who_writes(rep, mod, RW, ['newchar', 'reset', 'init'])
 
     src1 = repo + '/igris/protocols/gstuff_v1/autorecv.c'
     mod1 = compile_ir(src1, repo)
@@ -272,8 +277,13 @@ def run(rep, repo, tier):
     run1.run('gstuff_autorecv_reset_v1', FnSpec(post=[dict(name='cleared', then=['line.len_post == 0', 'crc_post == 255'])]))
     run1.run('gstuff_autorecv_setbuf_v1', FnSpec(ctor=True, structs={'autom': RECV1}, pre=['len >= 2'], extents={'buf': 'len'},
                                                  post=[dict(name='ready', then=['line.len_post == 0', 'crc_post == 255', 'line.cap_post == len'])]))
-    rep.add_absint('R-RECV1', summarize(it1, run1))
-    who_writes(rep, mod1, 'R-WHOWRITES', ['gstuff_autorecv_newchar_v1', 'gstuff_autorecv_reset_v1', 'gstuff_autorecv_setbuf_v1'])
+    rep.add_absint(RR1, summarize(it1, run1))
+    who_writes(rep, mod1, RW, ['gstuff_autorecv_newchar_v1', 'gstuff_autorecv_reset_v1', 'gstuff_autorecv_setbuf_v1'])
+    if as_decoder:
+        rep.explanation, rep.assumptions = saved[0], saved[1]
+        rep.floor('R-DECODE:post', 60)
+        rep.floor('R-DECODE-LEGACY:post', 35)
+        return
     rep.floor('R-RECV:post', 60)
     rep.floor('R-RECV:bounds', 5)
     rep.floor('R-RECV:invariant', 10)
